@@ -15,9 +15,14 @@ position ``k`` when rows of ``R`` are not unique, which is the weaker reading):
   cursor         focus=True and the (selectable) focus item reports a cursor through
                  get_cursor_coords  =>  canvas.cursor == that cursor translated by the focus
                  item's offset in the window, and it lies inside the window
-  mouse-focus    button-1 press on a cell whose row belongs (under every window candidate of the
-                 render immediately before) to a selectable item  =>  focus_position is that item
-                 right after mouse_event returns
+  mouse-focus    button-1 press (event "mouse press", alone or with the modifier prefixes the display
+                 modules add: "ctrl mouse press", "shift meta mouse press", ...) on a cell whose row
+                 belongs (under every window candidate of the render immediately before) to a selectable
+                 item  =>  focus_position is that item right after mouse_event returns
+
+Insertions, deletions and replacements are performed through every spelling of the walker's list API
+(and splices / in-place reorders, which are several of them reported at once); release and drag
+events take part in the histories with no clause of their own.
 
 Anything else (which row is aligned where, which item a key selects, return values) is not
 asserted: the statement is silent.
@@ -41,12 +46,20 @@ RULE = (
     "rows in wrap space/any/clip, Edit single/multi-line with the cursor anywhere, Button, SelectableIcon, "
     "Divider, empty Pile (0 rows), Pile of leaves; bare or wrapped in AttrMap so rows carry an item tag) on "
     "SimpleListWalker, SimpleFocusListWalker or a custom dict-backed ListWalker with string positions; ops: "
-    "keys (up/down/page up/page down/home/end/left/right/enter/backspace/characters), mouse press 1/3/4/5 on "
-    "any cell of the last rendered size, set_focus(pos, coming_from), set_focus_valign(top/middle/bottom/"
-    "VAlign/('relative',0..100)), resize (1..20,1..10), focus flag True/False, walker insert/delete/replace/"
-    "clear; a minority of ops is not followed by a render so that pending focus/valign requests meet later "
-    "ops.  Non-trivial: the history contains a certain scroll (window start k changed between two checked "
-    "renders) and a walker edit or a resize.  Distinct = distinct case hash."
+    "keys (up/down/page up/page down/home/end/left/right/enter/backspace/characters), mouse events on any "
+    "cell of the last rendered size - press of button 1/2/3/4/5 under every event name the display modules "
+    "build for it (plain or prefixed with any combination of 'shift '/'meta '/'ctrl ': all of them are "
+    "button presses for the mouse-focus clause), and release (button 0 or n) / drag events, plain or "
+    "prefixed; set_focus in its spellings ListBox.set_focus(pos, coming_from), ListBox.focus_position = pos, "
+    "body.set_focus(pos); set_focus_valign(top/middle/bottom/VAlign/('relative',0..100)), resize "
+    "(1..20,1..10), focus flag True/False; walker insert/delete/replace/clear, each through every spelling "
+    "the list API of MonitoredList/MonitoredFocusList offers for it (insert, append, extend, +=, w[i:i]=[x], "
+    "negative index, SimpleListWalker.contents; del w[i], pop(i), pop(), remove(x), del w[i:i+1], negative "
+    "index; w[i]=x, w[i:i+1]=[x], negative index; del w[:], clear(), w[:]=[], w*=0), splice w[i:j]=[0..3 new "
+    "items] and in-place reorder (reverse(), sort(key)); the custom walker performs the same edits through "
+    "its own methods.  A minority of ops is not followed by a render so that pending focus/valign requests "
+    "meet later ops.  Non-trivial: the history contains a certain scroll (window start k changed between two "
+    "checked renders) and a walker edit or a resize.  Distinct = distinct case hash."
 )
 ASSUMPTIONS = [
     "the items' own render((cols,), focus) / rows / get_cursor_coords are the reference for what a row of "
@@ -56,6 +69,12 @@ ASSUMPTIONS = [
     "the custom walker follows the documented ListWalker protocol (focus attribute, __getitem__, "
     "next_position/prev_position raising IndexError at the ends, set_focus, positions, emits 'modified')",
     "wrap_around walkers are not generated (outside the quantifier)",
+    "the caller keeps recent canvases alive (as a Screen keeps the last one drawn), so renders may be served "
+    "by CanvasCache; every generated walker edit is one that the walker is required to report with its "
+    "'modified' signal (list-API mutators of the Simple*ListWalker classes, ListWalker.set_focus); assigning "
+    "SimpleFocusListWalker.focus directly, which bypasses the signal, is not generated",
+    "mouse event names are those urwid's own input decoders produce (escape.py: modifiers in the order shift, "
+    "meta, ctrl, then 'mouse press|release|drag'); an event is a button press iff its name ends in 'mouse press'",
 ]
 
 _CTX = None  # set by shard(): lets check_ops report run-time classes / non-triviality
@@ -996,6 +1015,9 @@ def _known_page_fallback_zero_rows(sub, case, v):
 KNOWN = {
     "C07-page-fallback-zero-rows": _known_page_fallback_zero_rows,
     "C07-page-down-off-top": _known_page_down_off_top,
+    # same root cause, the part that the repair of the first (selectable) candidate loop left: the
+    # last-resort loop "choose the bottommost widget" still takes a widget lying wholly above the top edge
+    "C07-page-down-off-top-last-resort": _known_page_down_off_top,
     "C07-pending-focus-stale-position": _known_pending_stale,
     "C07-zero-row-focus-bottom": _known_zero_row_bottom,
     "C07-valign-no-invalidate": _known_valign_no_invalidate,
